@@ -6,7 +6,7 @@ from ..searchmon import RecoMon
 from . import treeshared as TS
 
 PROP = "C07"
-FAMS = ["int3wide", "hugeneg", "negbern", "nonpos3", "cl_negdist", "bern", "quant5", "neg", "const", "zero", "tied", "twoval", "neg", "incr", "decr", "best_first", "best_last", "noisy", "unit",
+FAMS = ["negzero", "negzero", "int3wide", "hugeneg", "negbern", "nonpos3", "cl_negdist", "bern", "quant5", "neg", "const", "zero", "tied", "twoval", "neg", "incr", "decr", "best_first", "best_last", "noisy", "unit",
         "large", "cl_hump", "cl_step", "drift"]
 RULE = ("DOO (default and user delta), SOO, SequOOL, StoSOO, StroquOOL, POO x3, GPO x3, PCT, VPCT on all partitions, "
         "d=1..3, T=n and T<n; reward families over-weight all-negative / all-equal / all-zero / tied values, strictly "
@@ -30,7 +30,7 @@ SIMPLE = ["DOO", "DOO_delta", "SOO", "SequOOL", "StoSOO", "StroquOOL"]
 
 
 def gen_cases(rng, tier, count=None):
-    count = count or (700 if tier == "quick" else 12000)
+    count = count or (1000 if tier == "quick" else 12000)
     out = []
     for i in range(count):
         if i % 4 == 3:
@@ -38,7 +38,12 @@ def gen_cases(rng, tier, count=None):
             c["reward"]["family"] = str(rng.choice(FAMS))
         else:
             a = SIMPLE[i % len(SIMPLE)]
-            c = gen.algo_case(rng, a, tier, fams=ORDER if rng.random() < 0.25 else FAMS)
+            u = rng.random()
+            fams = ORDER if u < 0.25 else FAMS
+            if a in ("DOO", "DOO_delta", "SOO") and 0.25 <= u < 0.5:
+                # the best value is an exact zero - the default reward DOO / SOO give a cell before it is evaluated
+                fams = ["negzero", "negzero", "nonpos3"]
+            c = gen.algo_case(rng, a, tier, fams=fams)
         if c["algo"] == "StoSOO" and rng.random() < 0.4:
             # a cap one or two levels too tight: once the cells above it are used up pull returns None (C01's
             # business); the recommendation asked then must still follow the deepest-level rule
@@ -48,6 +53,10 @@ def gen_cases(rng, tier, count=None):
         T = c["T"]
         if T >= 4:
             c["queries"] = sorted(int(x) for x in rng.integers(1, T, size=int(rng.integers(0, 4))))
+            if c["algo"] in ("DOO", "DOO_delta", "SOO", "SequOOL", "StoSOO") and T <= 700 and rng.random() < 0.5:
+                # cheap recommendations: ask after every round (a wrong answer may exist only in the one round in
+                # which an expansion has left unevaluated cells behind); the other half keeps sparse queries
+                c["queries"] = list(range(T))
             if a_is_stroquool(c):
                 # the validation phase is short and early (rounds ~45-62 of n = 1000): ask after every round; queries
                 # before a candidate exists raise (known finding of C01) and are skipped.  Every second run asks at
